@@ -3,7 +3,7 @@ import ast
 import re
 
 from ..pycfg import CFG, walk_no_nested
-from ..source import atoms, atom_key, truth, side, linear, guard_walk, is_guard, AnalysisError, find_function, first_line, src, functions
+from ..source import conjuncts, atoms, atom_key, truth, side, linear, guard_walk, is_guard, AnalysisError, find_function, first_line, src, functions
 
 SM = "nemoguardrails/colang/v2_x/runtime/statemachine.py"
 EVAL = "nemoguardrails/colang/v2_x/runtime/eval.py"
@@ -78,9 +78,10 @@ def branches(fn):
     out = {}
     for n in ast.walk(fn):
         if isinstance(n, ast.If):
-            for c in ast.walk(n.test):
+            # the kind test is the condition itself or one of its conjuncts (an isinstance inside an `or` - e.g. the type guard that lets dict subclasses through - selects nothing)
+            for c in conjuncts(n.test):
                 if isinstance(c, ast.Call) and isinstance(c.func, ast.Name) and c.func.id == "isinstance" and len(c.args) == 2 \
-                        and isinstance(c.args[0], ast.Name) and c.args[0].id == ref and not _negated(c, n.test):
+                        and isinstance(c.args[0], ast.Name) and c.args[0].id == ref:
                     out.setdefault(src(c.args[1]), (n, n.body))
     return out
 
@@ -190,17 +191,34 @@ def b_dispatch(ctx, fn):
     eq = [n for n in ast.walk(fn) if isinstance(n, ast.If) and isinstance(n.test, ast.Compare) and len(n.test.ops) == 1
           and isinstance(n.test.ops[0], ast.NotEq) and {src(n.test.left), src(n.test.comparators[0])} == {args, ref} and any(_is_ret0(x) for x in n.body)]
     ctx.check("C04.b.fallthrough", SM, fn.name, "scalar equality", len(eq) == 1, "scalars fall through to `%s != %s => 0.0`" % (args, ref), line=fn.lineno)
-    # either polarity: the side of the test on which the types differ returns 0.0
+    # the side taken when the received value is neither an instance of the pattern's type nor (for dict patterns) a dict of another dict class returns 0.0
     tm = []
+    core = "isinstance(%s,type(%s))" % (ref, args)
     for n in ast.walk(fn):
         if not isinstance(n, ast.If):
             continue
-        neg = isinstance(n.test, ast.UnaryOp) and isinstance(n.test.op, ast.Not)
-        core = n.test.operand if neg else n.test
-        if re.sub(r"\s", "", src(core)) == "isinstance(%s,type(%s))" % (ref, args):
-            mismatch_side = n.body if neg else n.orelse
-            if any(_is_ret0(x) for x in mismatch_side):
-                tm.append(n)
+        hit = [a_ for a_ in atoms(n.test) if re.sub(r"\s", "", src(a_)) == core]
+        if not hit:
+            continue
+        facts = {(lambda e, h=hit[0]: e is h): False,
+                 (lambda e: isinstance(e, ast.Call) and src(e.func) == "isinstance" and len(e.args) == 2 and src(e.args[0]) == args): False}
+        v = truth(n.test, facts)
+        if v is not None and any(_is_ret0(x) for x in side(n, v)):
+            tm.append(n)
+    # ... but a dict is a dict: `$info = {...}` is handed on as a dict SUBCLASS (attribute access), and the received event is not serialised on the way back in, so an
+    # expected dict literal must match an equal received dict of another dict class (F133)
+    sub_ok = True
+    for n in tm:
+        hit = [a_ for a_ in atoms(n.test) if re.sub(r"\s", "", src(a_)) == core]
+        facts = {(lambda e, h=hit[0]: e is h): False,
+                 (lambda e: isinstance(e, ast.Call) and src(e.func) == "isinstance" and len(e.args) == 2 and src(e.args[1]) == "dict"): True}
+        v = truth(n.test, facts)
+        if v is None or any(_is_ret0(x) for x in side(n, v)):
+            sub_ok = False
+    ctx.check("C04.b.type-mismatch", SM, fn.name, "dict pattern vs. dict of another class", bool(tm) and sub_ok,
+              "two dicts are compared by the dict rules whatever their classes" if tm and sub_ok else
+              "the type guard returns 0.0 for an expected `dict` against a received dict subclass: `match Ev(info={\"battery\": \"low\"})` does not advance on an equal dict that was "
+              "sent from a variable (`send Ev(info=$info)`)", line=(tm[0].lineno if tm else fn.lineno))
     ctx.check("C04.b.type-mismatch", SM, fn.name, "type mismatch", len(tm) == 1, "a value of another type than the pattern is no match (0.0)", line=fn.lineno)
     # producers of pattern objects exist in eval.py's function table with those types
     EV = "nemoguardrails/colang/v2_x/runtime/eval.py"
@@ -284,8 +302,20 @@ def e_primitives(ctx, fn):
     if "ComparisonExpression" in br:
         ifn, body = br["ComparisonExpression"]
         calls = [c for st in body for c in ast.walk(st) if isinstance(c, ast.Call) and isinstance(c.func, ast.Attribute) and c.func.attr == "compare"]
-        ok = len(calls) == 1 and [src(a) for a in calls[0].args] == [args] and all(isinstance(st, (ast.Return, ast.Try)) for st in body)
+        # besides the delegation the branch may only answer the identity case (`value is pattern` => 1.0: a flow's own reference event carries the flow's arguments)
+        def _identity_case(st):
+            return isinstance(st, ast.If) and isinstance(st.test, ast.Compare) and len(st.test.ops) == 1 and isinstance(st.test.ops[0], ast.Is) \
+                and {src(st.test.left), src(st.test.comparators[0])} == {args, fn.args.args[1].arg} \
+                and all(isinstance(x, ast.Return) and isinstance(x.value, ast.Constant) and x.value.value == 1.0 for x in st.body)
+        flat = linear(body)
+        ok = len(calls) == 1 and [src(a) for a in calls[0].args] == [args] and all(isinstance(st, (ast.Return, ast.Try)) or _identity_case(st) for st in flat)
         ctx.check("C04.e.comparison", SM, fn.name, "comparison primitive", ok, "a ComparisonExpression delegates to its compare(value)", line=ifn.lineno)
+        # the reference event of `$flow_ref.Finished()` copies the instance's arguments, so the pattern object itself arrives as the value: that is a match (F134)
+        ident = any(_identity_case(st) for st in flat)
+        ctx.check("C04.e.comparison", SM, fn.name, "a comparison pattern matches itself", ident,
+                  "`value is pattern` => 1.0" if ident else
+                  "a flow started with a comparison pattern as argument (`await temperature reached(threshold=greater_than(30))`) never matches its own Finished event: the reference "
+                  "event carries the pattern object, compare(pattern) raises and is turned into 0.0 - the awaiting flow hangs", line=ifn.lineno)
         # compare() raises for values it cannot compare; the matcher must turn that into "no match"
         ev = ctx.tree.ast("nemoguardrails/colang/v2_x/runtime/eval.py")
         cmpf = find_function(ev, "compare", "ComparisonExpression")
